@@ -242,7 +242,9 @@ func runeSweep(r *core.Run) {
 
 // repertoire returns a few representable non-ASCII runes and a few unrepresentable ones for c.
 func (c *charset) pools() (repr, unrepr []rune) {
-	cands := []rune{0xE9, 0xC5, 0xF6, 0x20AC, 0x153, 0x104, 0x5D0, 0x62A, 0x10D0, 0x531, 0x3B1, 0x44F, 0x4E2D, 0xFFFD, 0xFFFF, 0x7FF, 0x800, 0x80, 0xA0, 0xFF, 0x100, 0x1F600, 0x10000, 0x10FFFF, 0x2028}
+	cands := []rune{0xE9, 0xC5, 0xF6, 0x20AC, 0x153, 0x104, 0x5D0, 0x62A, 0x10D0, 0x531, 0x3B1, 0x44F, 0x4E2D, 0xFFFD, 0xFFFF, 0x7FF, 0x800, 0x80, 0xA0, 0xFF, 0x100, 0x1F600, 0x10000, 0x10FFFF, 0x2028,
+		// 7-bit positions that national ISO 646 variants (swe7) reassign: unrepresentable there, plain ASCII elsewhere
+		'@', '[', ']', '^', '`', '{', '|', '}', '~', 0x7F}
 	if c.kind == "table" {
 		for ru := range c.table {
 			if ru >= 0x80 {
